@@ -177,6 +177,10 @@ func play(c caseIn) caseObs {
 	return o
 }
 
+// hangWait: how long a released, healthy graceful stop may take before it counts as hung (it takes
+// milliseconds). Replays (the shrinker re-runs a case that already failed many times) wait 10 s.
+var hangWait = 25 * time.Second
+
 // finishGraceful: make the run healthy (every gate released), issue the stop if the schedule
 // did not, and wait for StopAndWait to return.
 func finishGraceful(sys *stopx.Sys, c caseIn, o *caseObs, stopDone <-chan struct{}, stopped bool) {
@@ -201,7 +205,7 @@ func finishGraceful(sys *stopx.Sys, c caseIn, o *caseObs, stopDone <-chan struct
 	w.Log(stopx.Ev{K: "release"})
 	w.Release()
 	o.Healthy = true
-	if !stopx.WaitCh(stopDone, 25*time.Second) {
+	if !stopx.WaitCh(stopDone, hangWait) {
 		o.Hung = "stopwait"
 	}
 	w.Settle(300*time.Microsecond, 20*time.Millisecond)
@@ -604,6 +608,21 @@ func directedStopInFlight(t stopx.Topo, k, j int, stop string) []string {
 	return append(sched, "w", stop+"!", "w")
 }
 
+// directedBatchedAcks: the destinations batch their acks (Topo.AckBatch = k): the verdicts are there before
+// the records, the source hands out k records at once, so the response [ack 1..k] is produced the moment
+// record k is written - while the engine's Write call of record k has not returned yet - and is consumed
+// when fewer than k messages have reached the acker; rounds of it, then the graceful stop.
+func directedBatchedAcks(t stopx.Topo, rounds int, stop string) []string {
+	sched := []string{"start"}
+	for i := 0; i < rounds; i++ {
+		for d := 1; d <= t.Dests; d++ {
+			sched = append(sched, fmt.Sprintf("ok:d%d:%d!", d, t.AckBatch))
+		}
+		sched = append(sched, fmt.Sprintf("e:s1:%d", t.AckBatch), "w")
+	}
+	return append(sched, stop+"!", "w")
+}
+
 // directedForceRestart (c12): records in flight at destinations that do not answer, force stop, and -
 // by the harness's epilogue - the next start; strict = the plugins honour the (cancelled) context of
 // the Stop / Teardown calls that end the run, same = the next start happens in the same process.
@@ -673,6 +692,14 @@ func emitCorpus(w *hx.Writer, o hx.Opts, prop string) {
 				emit(w, caseIn{Prop: prop, Topo: t, Sched: directedAckInFlight(t, k, []string{"stop", "shutdown"}[k%2])})
 			}
 		}
+		// destinations that cover several records with one ack response
+		for _, e := range []string{"v1", "v2"} {
+			for k, t := range directedTopos[:3] {
+				t.Engine = e
+				t.AckBatch = 2 + k%2
+				emit(w, caseIn{Prop: prop, Topo: t, Sched: directedBatchedAcks(t, 1+k%2, "stop")})
+			}
+		}
 		// the engine's shutdown (a stop with a reason) while records are in flight
 		for _, e := range []string{"v1", "v2"} {
 			for k, t := range directedTopos {
@@ -738,6 +765,7 @@ func main() {
 	}
 	switch {
 	case o.Replay != "":
+		hangWait = 10 * time.Second
 		cs, err := hx.ReadJSONL(o.Replay)
 		if err != nil {
 			fmt.Fprintln(os.Stderr, err)
@@ -768,6 +796,9 @@ func main() {
 			r2 := root.Fork(0xC0612<<40 | uint64(o.Shard)<<32 | uint64(i))
 			if prop == "c12" {
 				t.StrictCtx = r2.Bool()
+			}
+			if r3 := root.Fork(0xBA7C<<40 | uint64(o.Shard)<<32 | uint64(i)); prop == "c06" && r3.Chance(1, 4) {
+				t.AckBatch = r3.Range(2, 3)
 			}
 			for p := 1; p <= len(base); p++ {
 				st := what
@@ -805,6 +836,18 @@ func main() {
 			if prop == "c12" {
 				t.StrictCtx = r2.Bool()
 				sameProc = r2.Bool()
+			}
+			// batching destinations: a further independent stream
+			r3 := root.Fork(0xBA7C<<40 | uint64(o.Shard)<<32 | uint64(i))
+			if prop == "c06" && i%8 == 5 {
+				dt := directedTopos[r3.Intn(3)]
+				dt.Engine = t.Engine
+				dt.AckBatch = r3.Range(2, 3)
+				// an extra case: the slot's own case follows unchanged
+				emit(w, caseIn{Prop: prop, Topo: dt, Sched: directedBatchedAcks(dt, r3.Range(1, 3), stopKind)})
+			}
+			if prop == "c06" && r3.Chance(1, 4) {
+				t.AckBatch = r3.Range(2, 3)
 			}
 			if prop == "c06" && i%4 == 3 {
 				dt := directedTopos[r.Intn(len(directedTopos))]
@@ -875,6 +918,7 @@ func caseFromJSON(m map[string]any, prop string) caseIn {
 	if b, ok := tm["strict_ctx"].(bool); ok {
 		c.Topo.StrictCtx = b
 	}
+	c.Topo.AckBatch = geti("ack_batch")
 	if b, ok := in["same_proc"].(bool); ok {
 		c.SameProc = b
 	}
